@@ -32,7 +32,7 @@ RULE = (
     'non-trivial = the sheet holds >=1 URL. part 2: all import trees over a virtual file system: family A = every chain of '
     'length<=D with the full per-edge alphabet (7 locations x 2 media x 2 availabilities) and every leaf content; family B = every '
     'tree shape with <=2 children per node and depth<=2 with at most k decision sites (edges, sheet contents) off default; family P = '
-    'depth-1 trees below a real top-level file; each tree x every output mode. Distinct by construction (each coordinate tuple is '
+    'depth-1 trees below a real top-level file; each tree x the output modes of its family (bounds). Distinct by construction (each coordinate tuple is '
     'generated once; sites below a missing edge are not varied); non-trivial = at least one @import edge'
 )
 ASSUMPTIONS = [
@@ -289,10 +289,13 @@ def p1_rule_menu(tier):
     return menu
 
 
-def p1_import_combos(full):
+def p1_import_combos(tier):
+    """tier None: all 21 sequences of <=2 import forms; else the subset used for sheets with two rules"""
     n = len(IMPORT_FORMS)
-    if full:
+    if tier is None:
         return [[]] + [[i] for i in range(n)] + [[i, j] for i in range(n) for j in range(n)]
+    if tier == 'quick':
+        return [[], [0, 1], [2, 3]]
     return [[], [0], [3], [0, 1], [2, 3]]
 
 
@@ -420,8 +423,27 @@ def run_urls_case(res, case):
             return
         clause = 'C19.replace.ignoreimports' if ignore else 'C19.replace.tag'
         res.clauses[clause] += 1
-        ok, _ = _call(res, clause, case, lambda: cssutils.replaceUrls(sh, lambda u: u + TAG, ignoreImportRules=ignore))
+        tcalls = []
+
+        def tagging(u, tcalls=tcalls):
+            tcalls.append(u)
+            return u + TAG
+
+        ok, _ = _call(res, clause, case, lambda: cssutils.replaceUrls(sh, tagging, ignoreImportRules=ignore))
         if not ok:
+            continue
+        exp_calls = want[n_imp:] if ignore else want
+        if sorted(tcalls) != sorted(exp_calls):
+            # a replacer that changes its argument must be applied exactly once, too (and to the old value)
+            twice = [u for u in set(tcalls) if tcalls.count(u) > exp_calls.count(u)]
+            miss = [u for u in set(exp_calls) if tcalls.count(u) < exp_calls.count(u)]
+            if twice and twice[0] in exp_calls:
+                sym = 'changing-replacer-called-more-than-once|' + _where(sheet, twice[0])
+            elif twice:
+                sym = 'changing-replacer-called-with-a-value-that-is-no-url-of-the-sheet'
+            else:
+                sym = 'changing-replacer-not-called|' + _where(sheet, miss[0])
+            res.violation(clause, sym, case, exp_calls, tcalls, note=text)
             continue
         ok, got = _call(res, clause, case, lambda: list(cssutils.getUrls(sh)))
         if not ok:
@@ -474,6 +496,7 @@ CONTENTS = ['rel', 'dotdot', 'dotdot2', 'abs', 'root', 'schemerel', 'qf', 'names
 EDGE_DEFAULT = ['same', '', 'present']
 CONTENT_DEFAULT = 'rel'
 MODES = [['resolve'], ['combine', False, None], ['combine', False, 'ascii'], ['combine', True, None], ['combine', True, 'ascii']]
+MODES_B = [MODES[0], MODES[2], MODES[3]]  # family B: resolveImports + the two csscombine modes that differ in both switches
 MODE_URL = ['combine-url', True, None]
 MODE_PATH = ['combine-path', False, None]
 
@@ -623,6 +646,7 @@ def flatten_observe(res, case, texts, top, mode, tmp=None):
             with open(tmp['path'], 'w', encoding='utf-8') as f:
                 f.write(texts[top])
             kw.update(path=tmp['path'])
+        ser_before = cssutils.ser
         try:
             with guard.watchdog(WD):
                 out = cssutils.script.csscombine(**kw)
@@ -637,7 +661,7 @@ def flatten_observe(res, case, texts, top, mode, tmp=None):
         log_after = (list(net.log), list(net.dlog))
         n_parse = _NET['mark']
         res.clauses['C19.combine.output'] += 1
-        if cssutils.ser is not guard._PRISTINE['ser']:
+        if cssutils.ser is not ser_before:
             res.violation('C19.combine.output', 'global-serializer-not-restored', case, 'cssutils.ser as before', 'another serializer')
         if not isinstance(out, bytes):
             res.violation('C19.combine.output', 'not-bytes', case, 'bytes', type(out).__name__)
@@ -822,7 +846,7 @@ def judge_flat(res, case, vfs, info, top, obs, mode):
             elif d == 'host':
                 sig = f'resolves-to-other-host|import={_edge_class(path)}'
             else:
-                sig = f'path|url={_url_kind(orig or "")}|imports={"/".join(e[0] for e in path)}'
+                sig = f'path|url={_url_kind(orig or "")}|imports={"+".join(sorted({e[0] for e in path}))}'
             if sig not in seen:
                 seen.add(sig)
                 res.violation('C19.flatten.urls', sig, case, w, g, note=f'{orig!r} in sheet {name!r} became {r!r}\n{note}')
@@ -933,6 +957,12 @@ def chains(depth):
         yield [CONTENT_DEFAULT, [first]]
 
 
+def chain_slot(tree):
+    """sharding key of a chain: (first edge, second edge | None)"""
+    e1, sub = tree[1][0]
+    return e1, (sub[1][0][0] if sub[1] else None)
+
+
 SHAPES = [(c,) + g for c in (1, 2) for g in itertools.product((0, 1, 2), repeat=c)]
 
 
@@ -976,9 +1006,10 @@ def _copy(t):
     return [t[0], [[list(e), _copy(s)] for e, s in t[1]]]
 
 
-def deviations(shape, k, first=None):
+def deviations(shape, k, first=None, vi=None):
     """family B: every variant of the default tree of `shape` with exactly j<=k sites off default (each variant once).
-    `first` restricts to variants whose lowest-numbered deviating site is that index (sharding)."""
+    `first`/`vi` restrict to variants whose lowest-numbered deviating site is that index and takes its vi-th
+    alternative (sharding); first=None yields the default tree only."""
     base = shape_tree(shape)
     sites = _sites(base)
     alts = {s: ([e for e in EDGES if e != EDGE_DEFAULT] if s[0] == 'e' else [c for c in CONTENTS if c != CONTENT_DEFAULT]) for s in sites}
@@ -988,7 +1019,10 @@ def deviations(shape, k, first=None):
                 continue
             if first is None and combo:
                 continue
-            for vals in itertools.product(*[alts[sites[i]] for i in combo]):
+            pools = [alts[sites[i]] for i in combo]
+            if vi is not None:
+                pools[0] = pools[0][vi:vi + 1]
+            for vals in itertools.product(*pools):
                 t = _copy(base)
                 for i, v in zip(combo, vals):
                     _set_site(t, sites[i], v)
@@ -1015,7 +1049,7 @@ def shape_k(shape, tier):
     edges = shape[0] + sum(shape[1:])
     if tier == 'quick':
         return 2 if edges <= 2 else 1
-    return 3 if edges <= 2 else 2
+    return 3 if edges <= 1 else 2
 
 
 def bounds(tier):
@@ -1028,7 +1062,7 @@ def bounds(tier):
         'part1_max_rules': t['p1_rules'],
         'part1_max_imports': 2,
         'part1_url_spellings': URL_KINDS,
-        'part1_import_combinations': 'all 21 for sheets with <=1 rule' + (' and for 2 rules' if tier != 'quick' else '; 5 combinations for 2 rules'),
+        'part1_import_combinations': {'sheets_with_<=1_rule': 'all 21 sequences of <=2 import forms', 'sheets_with_2_rules': p1_import_combos(tier)},
         'part1_url_rotation': 'every start kind for sheets with <=1 rule; start kind 0 for 2 rules',
         'edge_locations': LOCS,
         'edge_media': MEDIA,
@@ -1040,7 +1074,9 @@ def bounds(tier):
         'familyB_depth': 2,
         'familyB_sites_off_default_completed_k': {str(list(s)): shape_k(s, tier) for s in SHAPES},
         'familyP': 'depth-1 trees, csscombine(path=<real file>), all other sheets virtual file: URLs',
-        'output_modes': MODES + [MODE_URL, MODE_PATH],
+        'output_modes_familyA': MODES + [MODE_URL],
+        'output_modes_familyB': MODES_B,
+        'output_modes_familyP': [MODE_PATH],
         'top_href': TOP,
     }
 
@@ -1050,18 +1086,22 @@ def plan(tier):
     shards = []
     menu = p1_rule_menu(tier)
     # part 1: (first rule | none) x import combination; the shard enumerates the second rule and the URL rotation
-    for ci in range(len(p1_import_combos(True))):
+    for ci in range(len(p1_import_combos(None))):
         shards.append(['urls', -1, ci])
         for r1 in range(len(menu)):
             shards.append(['urls', r1, ci])
-    # family A: sharded by the first edge
-    for ei in range(len(EDGES)):
-        shards.append(['chain', ei])
-    # family B: sharded by shape and lowest deviating site
+    # family A: sharded by the first edge and the second edge (None = the chains of length 1)
+    for ei, e in enumerate(EDGES):
+        shards.append(['chain', ei, None])
+        if e[2] == 'present' and t['chain_depth'] > 1:
+            for e2 in range(len(EDGES)):
+                shards.append(['chain', ei, e2])
+    # family B: sharded by shape, lowest deviating site and its value
     for si, shape in enumerate(SHAPES):
-        shards.append(['dev', si, None])
-        for f in range(len(_sites(shape_tree(shape)))):
-            shards.append(['dev', si, f])
+        shards.append(['dev', si, None, None])
+        for f, site in enumerate(_sites(shape_tree(shape))):
+            for vi in range(len(EDGES) - 1 if site[0] == 'e' else len(CONTENTS) - 1):
+                shards.append(['dev', si, f, vi])
     shards.append(['path'])
     return shards
 
@@ -1074,31 +1114,33 @@ def run_shard(shard, tier, seed):
     if kind == 'urls':
         _, r1, ci = shard
         menu = p1_rule_menu(tier)
-        imports = p1_import_combos(True)[ci]
+        imports = p1_import_combos(None)[ci]
         if r1 < 0:
             for k0 in range(len(URL_KINDS)):
                 run_urls_case(res, {'kind': 'urls', 'imports': imports, 'rules': [], 'k0': k0})
         else:
             for k0 in range(len(URL_KINDS)):
                 run_urls_case(res, {'kind': 'urls', 'imports': imports, 'rules': [menu[r1]], 'k0': k0})
-            if tier != 'quick' or imports in p1_import_combos(False):
+            if imports in p1_import_combos(tier):
                 for r2 in menu:
                     run_urls_case(res, {'kind': 'urls', 'imports': imports, 'rules': [menu[r1], r2], 'k0': 0})
             res.sample({'kind': 'urls', 'imports': imports, 'rules': [menu[r1]], 'k0': 1})
     elif kind == 'chain':
         e0 = EDGES[shard[1]]
+        slot = (e0, None if shard[2] is None else EDGES[shard[2]])
         for tree in chains(t['chain_depth']):
-            if tree[1][0][0] != e0:
+            if chain_slot(tree) != slot:
                 continue
             for mode in MODES:
                 run_flatten_case(res, tree, mode, 'A')
             if len(_tree_edges(tree)) == 1:
                 run_flatten_case(res, tree, MODE_URL, 'A')
-        res.sample({'kind': 'flatten', 'tree': [CONTENT_DEFAULT, [[e0, _leaf('qf')]]], 'mode': MODES[shard[1] % len(MODES)]})
+        if shard[2] is None:
+            res.sample({'kind': 'flatten', 'tree': [CONTENT_DEFAULT, [[e0, _leaf('qf')]]], 'mode': MODES[shard[1] % len(MODES)]})
     elif kind == 'dev':
-        _, si, first = shard
-        for tree in deviations(SHAPES[si], shape_k(SHAPES[si], tier), first):
-            for mode in MODES:
+        _, si, first, vi = shard
+        for tree in deviations(SHAPES[si], shape_k(SHAPES[si], tier), first, vi):
+            for mode in MODES_B:
                 run_flatten_case(res, tree, mode, 'B')
     elif kind == 'path':
         for tree in path_family():
